@@ -28,6 +28,7 @@ class Cfg:
         self.quant = 'an'
         self.int_range = (0, 4)
         self.empty_domain = 0.06
+        self.single_top = 0.8            # probability that entity()/set_of() gets ONE condition (else 2-3, chained by and_)
         self.__dict__.update(kw)
 
 
@@ -193,7 +194,7 @@ def gen_case(rng, cfg, cid):
     vars_ = gen_vars(rng, cfg, classes, objs)
     ids = [v[0] for v in vars_]
     g = CondGen(rng, cfg, ids)
-    n_top = 1 if rng.random() < 0.8 else 2
+    n_top = 1 if rng.random() < cfg.single_top else rng.choice((2, 2, 3))
     cond = [g.cond(rng.randint(0, cfg.depth)) for _ in range(n_top)]
     if len(ids) == 1:
         sel = [('var', ids[0])]
